@@ -473,6 +473,21 @@ func parseComponent(r *hx.Run) {
 		"10.0.0.1\n10.0.0.1\n", "10.0.0.0/8\n10.1.0.0/16\n", " 1.2.3.4 \n", "1.2.3.4/24\n", "\t1.2.3.4\n", "1.2.3.4\r\n5.6.7.8", "::ffff:1.2.3.4\n"} {
 		emit("pexclfile", "fixed", d, runPExclFile(d))
 	}
+	// files longer than any read buffer (4 KiB, 64 KiB): hundreds or thousands of valid entries, all of them must
+	// come out, in order (a reader that hands out slices of its buffer loses the early ones)
+	for i := 0; i < 3+scale/4; i++ {
+		var pb, nb strings.Builder
+		n := 300 + rng.Intn(900)
+		if i%3 == 2 {
+			n = 6000 + rng.Intn(3000)
+		}
+		for j := 0; j < n; j++ {
+			pb.WriteString(portEntry() + "\n")
+			nb.WriteString(netEntry() + "\n")
+		}
+		emit("pportsfile", "big", pb.String(), runPPortsFile(pb.String()))
+		emit("pexclfile", "big", nb.String(), runPExclFile(nb.String()))
+	}
 	for i := 0; i < 120*scale; i++ {
 		d := fileLines(portEntry)
 		emit("pportsfile", "valid", d, runPPortsFile(d))
